@@ -79,6 +79,25 @@ pub fn shape_module(feat: &[String]) -> Vec<u8> {
             w += "  (memory $m64 i64 1 3)\n";
         }
     }
+    if has("memory") {
+        // code that names every memory through every family of memory-indexed instructions; copies go
+        // BETWEEN different memories (and between a 64-bit and a 32-bit one) so that dst and src cannot be confused
+        w += "  (func $fm (type $t0)\n    i32.const 0 i32.load $mm drop i32.const 0 i32.const 1 i32.store8 $mm offset=3\n";
+        w += "    i32.const 0 i32.const 7 i32.const 2 memory.fill $mm memory.size $mm drop i32.const 0 memory.grow $mm drop\n";
+        w += "    i32.const 0 v128.load $mm drop i32.const 0 v128.const i64x2 1 2 v128.store64_lane $mm 1\n";
+        w += "    i32.const 0 i64.atomic.load $mm drop i32.const 0 i32.const 1 i32.atomic.rmw.add $mm drop i32.const 0 i32.const 1 i32.const 2 i32.atomic.rmw.cmpxchg $mm drop\n";
+        if has("imports") {
+            w += "    i32.const 0 i32.const 4 i32.const 2 memory.copy 0 $mm i32.const 0 i32.const 4 i32.const 2 memory.copy $mm 0 i32.const 0 i64.load 0 drop\n";
+        }
+        if has("mem64") {
+            w += "    i64.const 0 i32.const 4 i32.const 2 memory.copy $m64 $mm i32.const 0 i64.const 4 i32.const 2 memory.copy $mm $m64\n";
+            w += "    i64.const 0 f32.load $m64 drop i64.const 0 i32.const 7 i64.const 2 memory.fill $m64 memory.size $m64 drop\n";
+        }
+        if has("data") {
+            w += "    i32.const 0 i32.const 0 i32.const 1 memory.init $mm 1 data.drop 1\n";
+        }
+        w += "  )\n";
+    }
     if has("globals") {
         w += "  (global $g0 (mut i32) (i32.const -7))\n  (global $g1 f32 (f32.const -nan:0x7fffff))\n  (global $g2 f64 (f64.const nan:0x4000000000001))\n";
         w += "  (global $g3 v128 (v128.const i64x2 0x8000000000000001 -1))\n  (global $g4 funcref (ref.func $f0))\n  (global $g5 (mut i64) (i64.const 9223372036854775807))\n";
